@@ -3,6 +3,7 @@ package main
 // Verification units: one real function (or function literal) of /repo under contract.
 
 import (
+	"sync"
 	"os"
 	"runtime/debug"
 	"fmt"
@@ -482,7 +483,61 @@ func (u *Unit) setField(st *State, v *Val, name string, nv *Val) *Val {
 // ---------------------------------------------------------------------------
 // heap
 
-func heapName(t types.Type, field string) string { return "H!" + typeKey(t) + "." + field }
+// heapOwner remembers, per field array, the struct type it belongs to (used to decide which arrays an object of a
+// given static type can own).
+var heapOwner = map[string]types.Type{}
+var heapOwnerMu sync.Mutex
+
+func heapName(t types.Type, field string) string {
+	n := "H!" + typeKey(t) + "." + field
+	heapOwnerMu.Lock()
+	if _, ok := heapOwner[n]; !ok {
+		tt := types.Unalias(t)
+		if p, isPtr := tt.Underlying().(*types.Pointer); isPtr {
+			tt = types.Unalias(p.Elem())
+		}
+		heapOwner[n] = tt
+	}
+	heapOwnerMu.Unlock()
+	return n
+}
+
+// methodMayWrite: can a method of the owning type write the field this array holds?
+func (e *Engine) methodMayWrite(name string) bool {
+	heapOwnerMu.Lock()
+	owner := heapOwner[name]
+	heapOwnerMu.Unlock()
+	if owner == nil {
+		return true
+	}
+	w := e.methodWrites(owner)
+	if w == nil {
+		return true
+	}
+	i := strings.LastIndex(name, ".")
+	return w[name[i+1:]]
+}
+
+// mayOwn: can an object whose static type is st (a pointer to a struct, or an interface) own the field array n?
+func mayOwn(n string, static types.Type) bool {
+	heapOwnerMu.Lock()
+	owner := heapOwner[n]
+	heapOwnerMu.Unlock()
+	if owner == nil || static == nil {
+		return true
+	}
+	s := types.Unalias(static)
+	if p, ok := s.Underlying().(*types.Pointer); ok {
+		return types.Identical(types.Unalias(p.Elem()), owner)
+	}
+	if it, ok := s.Underlying().(*types.Interface); ok {
+		if it.NumMethods() == 0 {
+			return true
+		}
+		return types.Implements(types.NewPointer(owner), it) || types.Implements(owner, it)
+	}
+	return true
+}
 
 func (u *Unit) heapDefault(st *State, name, valSort string) string {
 	if u.eng.heapSorts[name] == "" {
@@ -507,7 +562,43 @@ func (u *Unit) heapGet(st *State, name, valSort string) string {
 	if t, ok := st.heap[name]; ok {
 		return t
 	}
-	return u.heapDefault(st, name, valSort)
+	d := u.heapDefault(st, name, valSort)
+	if len(st.objHavoc) > 0 && strings.HasPrefix(name, "H!") {
+		// a field array first touched after `modifies object x`: x's cell is arbitrary here too
+		touched := false
+		for i, r := range st.objHavoc {
+			if mayOwn(name, st.objHavocT[i]) && u.eng.methodMayWrite(name) {
+				d = app("store", d, r, u.d.fresh("objhavoc", u.eng.heapSorts[name]))
+				touched = true
+			}
+		}
+		if touched {
+			st.heap[name] = d
+		}
+	}
+	return d
+}
+
+// havocObject: every field of the object at ref becomes arbitrary (modifies `object x`: the callee may call back into
+// methods of a value whose dynamic type it does not know).
+func (u *Unit) havocObject(st *State, ref string, static types.Type) {
+	var names []string
+	for n := range st.heap {
+		if strings.HasPrefix(n, "H!") && mayOwn(n, static) && u.eng.methodMayWrite(n) {
+			names = append(names, n)
+		}
+	}
+	sort.Strings(names)
+	for _, n := range names {
+		srt := u.eng.heapSorts[n]
+		if srt == "" {
+			continue
+		}
+		h := u.heapGet(st, n, srt)
+		u.heapSet(st, n, srt, app("store", h, ref, u.d.fresh("objhavoc", srt)))
+	}
+	st.objHavoc = append(st.objHavoc, ref)
+	st.objHavocT = append(st.objHavocT, static)
 }
 
 func (u *Unit) heapSet(st *State, name, valSort, term string) {
@@ -573,6 +664,7 @@ func (u *Unit) havocAllHeap(st *State, why string) {
 		u.epochN++
 		st.epoch = fmt.Sprintf("e%d", u.epochN)
 		st.heap = map[string]string{}
+		st.objHavoc, st.objHavocT = nil, nil
 	}
 	st.wm = u.bumpWM(st)
 	st.trace = append(st.trace, "havoc heap: "+why)
@@ -788,6 +880,85 @@ func (e *Engine) indexFuncs() {
 			}
 		}
 	}
+}
+
+// methodWrites: the fields of the struct type with the given type key that some method of the type may write (assignment
+// through the receiver, inc/dec, address taken, or a method call on a struct-valued field). A callee that only holds the
+// object as an interface value can change nothing else. nil = unknown (type declared outside the loaded syntax).
+var methodWritesCache = map[string]map[string]bool{}
+
+func (e *Engine) methodWrites(owner types.Type) map[string]bool {
+	n, ok := types.Unalias(owner).(*types.Named)
+	if !ok || n.Obj().Pkg() == nil {
+		return nil
+	}
+	key := typeKey(n)
+	heapOwnerMu.Lock()
+	defer heapOwnerMu.Unlock()
+	if m, done := methodWritesCache[key]; done {
+		return m
+	}
+	p := e.pkgs[n.Obj().Pkg().Path()]
+	if p == nil {
+		methodWritesCache[key] = nil
+		return nil
+	}
+	res := map[string]bool{}
+	prefix := p.PkgPath + "." + n.Obj().Name() + "."
+	for k, fd := range e.funcDecls {
+		if !strings.HasPrefix(k, prefix) || fd.Recv == nil || len(fd.Recv.List) == 0 || len(fd.Recv.List[0].Names) == 0 {
+			continue
+		}
+		recv := fd.Recv.List[0].Names[0].Name
+		// root field of an lvalue-like expression rooted at the receiver
+		var rootField func(x ast.Expr) string
+		rootField = func(x ast.Expr) string {
+			switch v := ast.Unparen(x).(type) {
+			case *ast.SelectorExpr:
+				if id, ok := ast.Unparen(v.X).(*ast.Ident); ok && id.Name == recv {
+					return v.Sel.Name
+				}
+				return rootField(v.X)
+			case *ast.IndexExpr:
+				return rootField(v.X)
+			case *ast.StarExpr:
+				return rootField(v.X)
+			}
+			return ""
+		}
+		ast.Inspect(fd.Body, func(nd ast.Node) bool {
+			switch v := nd.(type) {
+			case *ast.AssignStmt:
+				for _, l := range v.Lhs {
+					if f := rootField(l); f != "" {
+						res[f] = true
+					}
+				}
+			case *ast.IncDecStmt:
+				if f := rootField(v.X); f != "" {
+					res[f] = true
+				}
+			case *ast.UnaryExpr:
+				if v.Op == token.AND {
+					if f := rootField(v.X); f != "" {
+						res[f] = true
+					}
+				}
+			case *ast.CallExpr:
+				// recv.f.M(...): a method on a struct-valued field may write that field
+				if se, ok := ast.Unparen(v.Fun).(*ast.SelectorExpr); ok {
+					if f := rootField(se.X); f != "" {
+						if ft := fieldType(n, f); ft != nil && kindOf(ft) != kRef {
+							res[f] = true
+						}
+					}
+				}
+			}
+			return true
+		})
+	}
+	methodWritesCache[key] = res
+	return res
 }
 
 func recvTypeName(e ast.Expr) string {
